@@ -3,6 +3,7 @@ module verif
 go 1.22
 
 require (
+	github.com/goose-lang/primitive v0.1.0
 	github.com/mit-pdos/go-journal v0.5.4
 	github.com/mit-pdos/go-nfsd v0.0.0
 	github.com/zeldovich/go-rpcgen v0.1.5
@@ -10,7 +11,6 @@ require (
 
 require (
 	github.com/goose-lang/goose v0.7.1 // indirect
-	github.com/goose-lang/primitive v0.1.0 // indirect
 	github.com/goose-lang/std v0.4.1 // indirect
 	github.com/rodaine/table v1.2.0 // indirect
 	github.com/tchajed/marshal v0.6.2 // indirect
